@@ -253,6 +253,10 @@ pub fn check(c: &Case, stats: &mut Stats) -> CheckResult {
     let mut cut = expected_facts(&c.new, c.path);
     for t in cut.terms.iter_mut() {
         t.name = char_prefix(&t.name, 255).to_string();
+        // (the binary format encodes "no replacement" as id 0)
+        if t.replacement == Some(0) {
+            t.replacement = None;
+        }
     }
     for r in cut.recs[GENE].iter_mut() {
         r.name = char_prefix(&r.name, 255).to_string();
@@ -260,6 +264,9 @@ pub fn check(c: &Case, stats: &mut Stats) -> CheckResult {
     let want_rt = model_diff(&m2, &Model::new(&cut));
     if want_rt != empty {
         stats.label("name-longer-than-255-bytes");
+    }
+    if m1.ids.iter().chain(m2.ids.iter()).any(|i| m1.idx.get(i).is_some_and(|k| m1.replacement[*k] == Some(0)) || m2.idx.get(i).is_some_and(|k| m2.replacement[*k] == Some(0))) {
+        stats.label("replacement-id-0");
     }
     if rt_diff != want_rt {
         let (sig, msg) = explain(&want_rt, &rt_diff);
@@ -302,6 +309,11 @@ pub fn apply_edit(f: &mut Facts, kind: usize, p: [u16; 3], name: &str) -> Option
     let m = Model::new(f);
     let n = f.terms.len();
     let dangling = |x: u16| -> u32 {
+        // one dangling id in eight is HP:0000000 (the text format can name it; for the binary
+        // paths, where 0 encodes "no replacement", the strategy maps it to none again)
+        if x % 8 == 0 && !m.has(0) {
+            return 0;
+        }
         let mut d = 5_000_000 + u32::from(x) * 13;
         while m.has(d) {
             d += 1;
@@ -466,6 +478,11 @@ fn strategy(tier: Tier) -> BoxedStrategy<Case> {
             if !matches!(path, PathSel::Jax | PathSel::JaxT) {
                 for f in [&mut old, &mut new] {
                     for t in f.terms.iter_mut() {
+                        if t.replacement == Some(0) {
+                            t.replacement = None;
+                        }
+                    }
+                    for t in f.terms.iter_mut() {
                         t.name = char_prefix(&t.name, 255).to_string();
                     }
                     for r in f.recs[GENE].iter_mut() {
@@ -498,7 +515,7 @@ impl Property for C18 {
         vec![
             "nontrivial", "single:rename-term", "single:add-parent", "single:remove-parent", "single:flip-obsolete", "single:set-replacement-existing", "single:set-replacement-dangling",
             "single:clear-replacement", "single:add-term", "single:remove-term", "single:add-record", "single:remove-record", "single:rename-record", "single:add-link", "single:remove-link",
-            "single:change-replacement-dangling-to-dangling", "name-longer-than-255-bytes", "bulk>65535-terms",
+            "single:change-replacement-dangling-to-dangling", "name-longer-than-255-bytes", "bulk>65535-terms", "replacement-id-0",
         ]
     }
     fn run_generated(&self, tier: Tier, seed: u64, n: u64, stats: &mut Stats) -> Option<(Value, Failure)> {
